@@ -345,6 +345,7 @@ def link(files):
     functions = {}
     decls = {}
     classes = {}
+    enums = {}
     globs = {}
     tus = []
     fn_tus = {}
@@ -368,10 +369,12 @@ def link(files):
             if old is None or (len(c.get("methods", ())) > len(
                     old.get("methods", ()))):
                 classes[c["qn"]] = c
+        for en in d.get("enums", ()):
+            enums.setdefault(en["qn"], en)
         for g in d["globals"]:
             globs.setdefault(g["qn"], g)
     return {"functions": functions, "decls": decls, "classes": classes,
-            "globals": globs, "tus": tus,
+            "globals": globs, "enums": enums, "tus": tus,
             "fn_tu_count": {u: len(v) for u, v in fn_tus.items()}}
 
 
